@@ -210,6 +210,65 @@ fn random_bytes(rng: &mut Rng, dist: usize) -> Vec<u8> {
 		.collect()
 }
 
+/// A deep closed document followed by a failing source (ill-formed byte for
+/// `parse_slice_with`, `Err` item for `parse_utf8_with`): the error path must
+/// not depend on the nesting depth either. Returns (slice ok?, iterator ok?).
+fn deep_then_stream_error(text: &str) -> Result<(), String> {
+	let mut bytes = text.as_bytes().to_vec();
+	bytes.extend_from_slice(b" \xff");
+	match guard(|| Value::parse_slice_with(&bytes, real::options(Opts::STRICT))) {
+		Ok(Err(_)) => (),
+		Ok(Ok((v, _))) => {
+			drop_value_iter(v);
+			return Err("parse_slice_with accepted a document followed by an ill-formed byte".into());
+		}
+		Err(p) => return Err(format!("panic: {}", p)),
+	}
+	let n = text.chars().count();
+	match real::parse_with_stream_error(text, n, Opts::STRICT) {
+		Err(real::PErr::Stream(_)) => Ok(()),
+		Ok((v, _)) => {
+			drop_value_iter(v);
+			Err("parse_utf8_with returned Ok although the source failed".into())
+		}
+		Err(real::PErr::Panic(p)) => Err(format!("panic: {}", p)),
+		Err(_) => Ok(()),
+	}
+}
+
+/// Lazy character sources with a truthful, astronomically large `size_hint`
+/// that are rejected after a few characters: parsing must return `Err` after
+/// finitely many pulls without panicking or allocating for the announced length.
+fn huge_lazy_sources(rep: &mut Report) {
+	let cases: [(&str, char); 6] = [("", ']'), ("[1,", '}'), ("{\"a\":", ':'), ("\"abc", '\u{1}'), ("tru", 'x'), ("[1 ", 'y')];
+	for (prefix, filler) in cases {
+		for o in [Opts::STRICT, Opts { truncated: true, invalid: true }] {
+			rep.evaluations += 1;
+			rep.distinct_by_construction(1);
+			let pulled = Cell::new(0usize);
+			let src = prefix.chars().chain(std::iter::repeat(filler).take(1usize << 62)).inspect(|_| pulled.set(pulled.get() + 1)).map(Ok::<char, std::convert::Infallible>);
+			let hint = src.size_hint().0;
+			let r = guard(|| Value::parse_utf8_with(src, real::options(o)));
+			let case = json!({"sub": "lazy", "prefix": prefix, "filler": filler.to_string()});
+			match r {
+				Ok(Err(_)) => {
+					rep.count("huge_lazy_sources_rejected", 1);
+					rep.max("pulls_from_a_huge_lazy_source", pulled.get() as u64);
+					if pulled.get() > prefix.chars().count() + 4096 {
+						rep.violation("C03:lazy-source-overread", format!("source `{}{}{}...` (size_hint {}) rejected only after {} pulls", prefix, filler, filler, hint, pulled.get()), case);
+					}
+				}
+				Ok(Ok((v, _))) => {
+					drop_value_iter(v);
+					rep.violation("C03:lazy-source-accepted", format!("endless source `{}{}...` accepted", prefix, filler), case);
+				}
+				Err(p) => rep.violation("C03:panic", format!("parsing a lazy source `{}{}{}...` with size_hint {} panicked: {}", prefix, filler, filler, hint, p), case),
+			}
+		}
+	}
+	rep.count("family:huge-lazy-sources", 12);
+}
+
 /// Child mode: `jsv C03-child <kind-index> <depth> <stack-bytes>`; prints one
 /// CHILD-RESULT line. A stack overflow kills the process (observed by the parent).
 pub fn child(args: &[String]) -> i32 {
@@ -225,6 +284,12 @@ pub fn child(args: &[String]) -> i32 {
 		.stack_size(stack)
 		.spawn(move || {
 			let mut out = Vec::new();
+			if want {
+				match deep_then_stream_error(&text) {
+					Ok(()) => out.push(json!({"stream_error_after_document": "handled"})),
+					Err(m) => out.push(json!({"panic": format!("stream error after the document: {}", m)})),
+				}
+			}
 			for o in [Opts::STRICT, Opts { truncated: true, invalid: true }] {
 				match probe_parse(&text, o) {
 					Ok(r) => out.push(json!({
@@ -358,6 +423,10 @@ fn deep_jobs(cfg: &Config, total: &mut Report, thorough: bool) {
 					for (ri, run) in j["runs"].as_array().cloned().unwrap_or_default().iter().enumerate() {
 						if let Some(p) = run.get("panic") {
 							rep.violation("C03:panic-deep", format!("{:?} nested {} levels: panic {}", kind, depth, p), case.clone());
+							continue;
+						}
+						if run.get("stream_error_after_document").is_some() {
+							rep.count("deep_documents_followed_by_a_stream_error", 1);
 							continue;
 						}
 						let spread = run["spread"].as_u64().unwrap_or(0);
@@ -516,6 +585,11 @@ pub fn run(cfg: &Config) -> i32 {
 		total.merge(rep);
 	}
 
+	{
+		let mut rep = Report::new();
+		huge_lazy_sources(&mut rep);
+		total.merge(rep);
+	}
 	if !cfg.san {
 		deep_jobs(cfg, &mut total, thorough);
 	} else {
